@@ -112,6 +112,21 @@ theorem c19_amplification_is_clamped_product (cfg : Cfg) (hmax : 1 ≤ cfg.maxAm
     (result cfg stages x).amplification ≤ cfg.maxAmp :=
   runFrom_amp cfg stages 0 ⟨x, 1, none⟩ hmax
 
+/-- **The `on_stage_complete` observer is transparent**, whether it returns or raises: every theorem above also holds for
+    a cascade built with an observer, because the reported result is the one of the cascade without it.  (The observer's
+    behaviour is a parameter of `resultO` that the model never consults — the correspondence runs returning and raising
+    observers against the real code.) -/
+theorem c19_observer_is_transparent (cfg : Cfg) (obs : Option StageObs) (stages : List (Stage σ)) (x : σ) :
+    (resultO cfg obs stages x).1 = result cfg stages x :=
+  runO_transparent cfg obs stages x
+
+/-- The observer is shown a stage only if that stage's processor ran and the stage has a COMPLETED result. -/
+theorem c19_observer_sees_only_completed_stages (cfg : Cfg) (obs : Option StageObs) (stages : List (Stage σ)) (x : σ)
+    (j : Nat) (hj : j ∈ (resultO cfg obs stages x).2) :
+    (∃ r ∈ (result cfg stages x).results, r.idx = j ∧ r.status = .completed) ∧
+    (∃ sig, (.proc j sig) ∈ (result cfg stages x).log) :=
+  runFromO_seen cfg obs stages 0 ⟨x, 1, none⟩ j hj
+
 /-- **The loop body of the source is the model's.**  `Gen/CascadeTable.lean` is regenerated on every run by evaluating the
     REAL `Cascade.run` on every one-stage pipeline and every two-stage pipeline of required stages over the behaviour
     alphabet (checkpoint none/pass/reject/raise x processor ok/raise x handler none/ok/raise x required) x both
@@ -139,5 +154,11 @@ example : ∃ r ∈ (result ⟨true, 100⟩ [sPass, sReject, sPass] 5).results, 
 example : (result ⟨false, 100⟩ [sRaiseGate, sPass] 5).log =
       [.cp 0 5 .raise, .cp 1 5 (.ok true), .proc 1 5] ∧
     (result ⟨false, 100⟩ [sRaiseGate, sPass] 5).success = false := by decide
+
+/-- a raising observer on a pipeline with a skipped optional stage: shown stage 1 only, run not successful -/
+example : (resultO ⟨true, 100⟩ (some fun _ => .raise)
+      [⟨none, fun _ => .raise, none, false, 2⟩, sPass] 5).2 = [1] ∧
+    (resultO ⟨true, 100⟩ (some fun _ => .raise)
+      [⟨none, fun _ => .raise, none, false, 2⟩, sPass] 5).1.success = false := by decide
 
 end Operon.Cascade
